@@ -2,7 +2,8 @@
 PROPS['C33'] = dict(
     target='Props/C33',
     theorems=['C33_batches_in_order', 'C33_persisted_not_ahead', 'C33_reset_restarts_from_first',
-              'C33_reset_reexports_refuted', 'C33_reset_reexports_partial', 'C33_progress', 'C33_all_delivered'],
+              'C33_no_late_store', 'C33_reset_reexports', 'C33_reset_not_undone', 'C33_unrepaired_reset_undone',
+              'C33_progress', 'C33_all_delivered'],
     ties=[dict(name='TIE-C repl', vh='repl', model='repl', n=dict(quick=250, thorough=6000), kinds=['C33'])],
     rule='scripts of 4..17 events from one PRNG (VERIF_SEED): produce 1-5 logs (real ids with gaps), exporter fails next 1-3 Accepts / down / up, '
          'StopPipeline, StartPipeline, ResetPipeline, manager restart (Stop + new Manager.Run), hold/release of StorePipelineState (slow database), '
@@ -10,13 +11,17 @@ PROPS['C33'] = dict(
          'exporter and a started pipeline and waits (<=15 s, polling) for quiescence; non-trivial = script with at least one reset or refused batch',
     explanation='Theorems are about Repl/Model.v: an automaton with one atomic step per goroutine action of pipeline.go:Run (fetch, push ok/fail, hand-off), of the '
                 'subscription goroutine of manager.go:startPipeline (StorePipelineState, also AFTER its handler was stopped), of the un-awaited Accept goroutine, and of the '
-                'manager operations (start/sync, stop request + halt, reset, crash). Proved for every event list: per started handler the acknowledged batches are '
+                'manager operations (start/sync, stop request, Run returning (halt), completion of the stop once the persister has drained, reset, crash). '
+                'Proved for every event list: per started handler the acknowledged batches are '
                 'exactly resume+1, resume+2, ... (C33_batches_in_order); persisted and in-flight ids never exceed the highest acknowledged id (C33_persisted_not_ahead); '
-                'ResetPipeline itself clears the id and restarts from the first log (C33_reset_restarts_from_first); explicit <=4-step progress schedule and <=4*(logs-cur) '
-                'drain schedule (C33_progress, C33_all_delivered). The full reset statement (everything at or below the cursor was exported since the last reset) is REFUTED '
-                'by the model (C33_reset_reexports_refuted: a store issued before the reset lands after it) and the refutation is reproduced on the real code (known finding); '
-                'C33_reset_reexports_partial proves it under "no such late store". Tie: trace inclusion — the observed trace of the real code (inside the case line) must be '
-                'accepted by the extracted automaton; the Go monitor checks order/gap-freedom per run, persisted <= acknowledged, re-export after reset and delivery at quiescence on the real ids.',
+                'ResetPipeline clears the id and restarts from the first log (C33_reset_restarts_from_first); no StorePipelineState outlives the operation that stopped its '
+                'handler (C33_no_late_store), hence persisted id / cursor never exceed what was acknowledged SINCE THE LAST RESET and everything at or below them was exported '
+                'again since that reset (C33_reset_reexports), and a cleared position stays cleared until the next acknowledgement (C33_reset_not_undone); explicit <=4-step '
+                'progress schedule and <=4*(logs-cur) drain schedule (C33_progress, C33_all_delivered). The code before fixes/repl-01 (stopPipeline did not wait for the persister '
+                'goroutine; init_unrepaired in the model) violated the reset statement: C33_unrepaired_reset_undone is the witness, reproduced on the real code at the time '
+                '(KF-C33-late-store-after-reset, now fixed). Tie: trace inclusion — the observed trace of the real code (inside the case line) must be '
+                'accepted by the extracted automaton; the Go monitor checks order/gap-freedom per run, persisted <= acknowledged (ever and since the last reset), no store after '
+                'the stop returned, re-export after reset and delivery at quiescence on the real ids.',
     trusted=['in-memory replication.Storage / LogFetcher / drivers.Driver of the harness (harness/go/vh/repl.go) stand in for PostgreSQL and the exporter; the trace is the linearisation '
              'of their effects under one lock',
              'ocaml/replrun.ml maps observed trace events to model events (stop request at call begin, halt at call end; hand-off taken eagerly)',
@@ -27,5 +32,5 @@ PROPS['C33'] = dict(
                'failure patterns and stop/start/reset/restart/crash sequences. Tied to the code by trace inclusion on random scripts run against the real manager with millisecond timers.',
     level_note='Liveness beyond the progress lemma (fairness of the Go scheduler, real timers, an exporter that eventually recovers) is outside the model: the harness only observes '
                'delivery at quiescence with a 15 s bound. One pipeline per manager; StorePipelineState/ListLogs errors and driver start-up (DriverFacade not ready = a refused batch) '
-               'are not generated. Crash (process death) is in the model but cannot be produced in-process by the harness. Known finding KF-C33-late-store-after-reset.',
+               'are not generated. Crash (process death) is in the model but cannot be produced in-process by the harness. KF-C33-late-store-after-reset is repaired (fixes/repl-01); the model follows the repaired code.',
 )
